@@ -179,13 +179,15 @@ def run_check(prop, tier, seed, jobs, runs=None, budget=None, write_evidence=Tru
 
     # ---------------------------------------------------------------- minimise + report
     n_viol = 0
-    for p, v in new_violations[:6]:
+    max_sigs = int(os.environ.get("NIXSIM_MAX_SIGS", "6"))
+    min_budget = os.environ.get("NIXSIM_MIN_BUDGET")
+    for p, v in new_violations[:max_sigs]:
         r = v["res"]
         sig = r["violation"]["signature"]
         ops = v["ops"]
         try:
             mops, ntests = E.minimise(p, r["seed"], v["knobs"], ops, sig,
-                                      budget_s=45 if tier == "quick" else 120)
+                                      budget_s=float(min_budget) if min_budget else (45 if tier == "quick" else 120))
         except Exception as e:  # noqa
             mops, ntests = ops, 0
         r["knobs"] = v["knobs"]
@@ -205,8 +207,8 @@ def run_check(prop, tier, seed, jobs, runs=None, budget=None, write_evidence=Tru
         _print("  seed=%d ops=%d (minimised from %d)" % (r["seed"], len(mops), len(ops)))
         n_viol += 1
         exit_code = 1
-    if len(new_violations) > 6:
-        _print("  (+%d more distinct violation signatures not minimised)" % (len(new_violations) - 6))
+    if len(new_violations) > max_sigs:
+        _print("  (+%d more distinct violation signatures not minimised)" % (len(new_violations) - max_sigs))
 
     wall = time.time() - t0
     # ---------------------------------------------------------------- evidence
